@@ -11,17 +11,17 @@
 (* the document has been encoded (what the code does today).                 *)
 (***************************************************************************)
 EXTENDS Naturals, Integers, Sequences, FiniteSets, TLC, Json
-CONSTANTS Writers, Targets0, ConvOutcomes, Faults, Flavours, HaveLibreOffice, EncodeBeforeOpen
+CONSTANTS Writers, Targets0, ConvOutcomes, Faults, Flavours, FsFaults, HaveLibreOffice, EncodeBeforeOpen
 VARIABLES sc, d, pc, target, parent, tmp, files, res, err, touched
 vars == <<sc, d, pc, target, parent, tmp, files, res, err, touched>>
 \* sc: scenario; target: "absent" | "old" | "new" | "partial"; parent: "missing" | "present"
 \* tmp: set of live temporary directories; files: files inside them; res: resource dir beside target
 \* touched: sequence of steps at which the target path was written (for TargetOnlyByLastStep)
 
-Sc0 == [writer |-> "rtf", target0 |-> "absent", conv |-> "ok", fault |-> 0, flavour |-> "base", converter |-> "stub"]
+Sc0 == [writer |-> "rtf", target0 |-> "absent", conv |-> "ok", fault |-> 0, flavour |-> "base", converter |-> "stub", fsfault |-> 0]
 Init == /\ sc = Sc0 /\ d = 1 /\ pc = "pick"
         /\ target = "absent" /\ parent = "present" /\ tmp = {} /\ files = {} /\ res = FALSE /\ err = "none" /\ touched = <<>>
-Pick == /\ pc = "pick" /\ d <= 6
+Pick == /\ pc = "pick" /\ d <= 7
         /\ CASE d = 1 -> \E v \in Writers : sc' = [sc EXCEPT !.writer = v]
              [] d = 2 -> \E v \in Targets0 : sc' = [sc EXCEPT !.target0 = v]
              [] d = 3 -> \E v \in (IF sc.writer = "rtf" THEN {"stub"} ELSE {"stub", "default"}) : sc' = [sc EXCEPT !.converter = v]
@@ -29,8 +29,10 @@ Pick == /\ pc = "pick" /\ d <= 6
              [] d = 5 -> \E v \in (IF sc.fault = 0 THEN {"base"} ELSE Flavours) : sc' = [sc EXCEPT !.flavour = v]
              [] d = 6 -> \E v \in (IF sc.writer = "rtf" \/ sc.converter = "default" \/ sc.fault # 0 THEN {"ok"} ELSE ConvOutcomes) :
                            sc' = [sc EXCEPT !.conv = v]
+             \* an OSError raised by the fsfault-th file-system operation of the export (0 = none)
+             [] d = 7 -> \E v \in (IF sc.fault # 0 \/ sc.conv # "ok" THEN {0} ELSE {0} \cup FsFaults) : sc' = [sc EXCEPT !.fsfault = v]
         /\ d' = d + 1 /\ UNCHANGED <<pc, target, parent, tmp, files, res, err, touched>>
-Start == /\ pc = "pick" /\ d = 7 /\ pc' = "mkparent"
+Start == /\ pc = "pick" /\ d = 8 /\ pc' = "mkparent"
          /\ target' = (IF sc.target0 = "old" THEN "old" ELSE "absent")
          /\ parent' = (IF sc.target0 = "missingdir" THEN "missing" ELSE "present")
          /\ UNCHANGED <<sc, d, tmp, files, res, err, touched>>
@@ -74,7 +76,12 @@ Move == /\ Step("move", IF sc.writer = "html" THEN "moveres" ELSE "cleanup") /\ 
 MoveResources == /\ Step("moveres", "cleanup") /\ res' = TRUE /\ files' = files \ {"t2/x_files"}
                  /\ UNCHANGED <<sc, d, target, parent, tmp, err, touched>>
 Cleanup == Step("cleanup", "returned") /\ tmp' = {} /\ files' = {} /\ UNCHANGED <<sc, d, target, parent, res, err, touched>>
-Next == Pick \/ Start \/ MkParent \/ NewConverter \/ MkTmp1 \/ OpenTarget \/ Encode \/ EncodeAbsorbs \/ WriteTarget \/ WriteTmp
+\* a failing file-system operation: any step that touches the file system before the target is touched
+\* may raise instead (which one is the fsfault-th is left to the implementation; the harness
+\* injects it by number)
+FsFail == /\ sc.fsfault # 0 /\ pc \in {"mkparent", "mktmp1", "writetmp", "mktmp2", "convert", "move", "writetarget"}
+          /\ Unwind("OSError")
+Next == Pick \/ Start \/ FsFail \/ MkParent \/ NewConverter \/ MkTmp1 \/ OpenTarget \/ Encode \/ EncodeAbsorbs \/ WriteTarget \/ WriteTmp
         \/ MkTmp2 \/ Convert \/ TypeCheck \/ Move \/ MoveResources \/ Cleanup
 Spec == Init /\ [][Next]_vars
 
